@@ -239,7 +239,10 @@ SE2TangentBase<_Derived>::rjacinv() const
   Jrinv(0,1) = -theta*Scalar(0.5);
   Jrinv(1,0) = -Jrinv(0,1);
 
-  if (theta_sq * theta_sq > Constants<Scalar>::eps)
+  // 1/theta - sin / (2 (1 - cos)) = theta/12 + theta^3/720 + ... is the difference of two numbers
+  // of size 1/theta: it keeps only a digit or two at theta ~ 4e-4. Series up to theta^6 below
+  // theta^8 < eps, closed form (accurate to ~1e-10 relative to x, y there) above.
+  if (theta_sq * theta_sq * theta_sq * theta_sq > Constants<Scalar>::eps)
   {
     Jrinv(0,0) = -A/(Scalar(2)*cos_theta-Scalar(2));
     Jrinv(1,1) =  Jrinv(0,0);
@@ -252,11 +255,13 @@ SE2TangentBase<_Derived>::rjacinv() const
   }
   else
   {
-    Jrinv(0,0) = Scalar(1)-theta_sq/Scalar(12);
+    const Scalar S = Scalar(1. / 12.) + theta_sq * (Scalar(1. / 720.) + theta_sq * Scalar(1. / 30240.));
+    Jrinv(0,0) = Scalar(1) - theta_sq * S;
     Jrinv(1,1) =  Jrinv(0,0);
 
-    Jrinv(0,2) =  y()/Scalar(2) + theta*x()/Scalar(12);
-    Jrinv(1,2) = -x()/Scalar(2) + theta*y()/Scalar(12);
+    const Scalar C = theta * S;
+    Jrinv(0,2) =  y()/Scalar(2) + C*x();
+    Jrinv(1,2) = -x()/Scalar(2) + C*y();
   }
 
   Jrinv(2,0) = Scalar(0);
@@ -334,7 +339,8 @@ SE2TangentBase<_Derived>::ljacinv() const
   Jlinv(0,1) =  theta*Scalar(0.5);
   Jlinv(1,0) = -Jlinv(0,1);
 
-  if (theta_sq * theta_sq > Constants<Scalar>::eps)
+  // see rjacinv() for the switch-over
+  if (theta_sq * theta_sq * theta_sq * theta_sq > Constants<Scalar>::eps)
   {
     Jlinv(0,0) = -A/(Scalar(2)*cos_theta-Scalar(2));
     Jlinv(1,1) =  Jlinv(0,0);
@@ -346,11 +352,13 @@ SE2TangentBase<_Derived>::ljacinv() const
   }
   else
   {
-    Jlinv(0,0) = Scalar(1)-theta_sq/Scalar(12);
+    const Scalar S = Scalar(1. / 12.) + theta_sq * (Scalar(1. / 720.) + theta_sq * Scalar(1. / 30240.));
+    Jlinv(0,0) = Scalar(1) - theta_sq * S;
     Jlinv(1,1) = Jlinv(0,0);
 
-    Jlinv(0,2) = -y()/Scalar(2) + theta*x()/Scalar(12);
-    Jlinv(1,2) =  x()/Scalar(2) + theta*y()/Scalar(12);
+    const Scalar C = theta * S;
+    Jlinv(0,2) = -y()/Scalar(2) + C*x();
+    Jlinv(1,2) =  x()/Scalar(2) + C*y();
   }
 
   Jlinv(2,0) = Scalar(0);
